@@ -37,6 +37,9 @@ def main():
             for a, b in ps:
                 o += [int(a)] + opt(b)
             r["fls"] = o
+            if c.get("marshal"):
+                import marshal
+                r["payload"] = list(bytearray(marshal.dumps(co)))
             if V >= (3, 10):
                 ts = list(co.co_lines())
                 o = [0, len(ts)]
